@@ -248,8 +248,7 @@ func (dec *xmlReader) Type() Type {
 			if ty, ok := typeFromName(attr.Value); ok {
 				return ty
 			}
-			//TODO: return error
-			panic("Invalid type")
+			return typeInvalid
 		}
 	}
 	return TypeStructure
@@ -300,6 +299,9 @@ func (dec *xmlReader) BigInteger(tag int) (*big.Int, error) {
 	bytes, err := hex.DecodeString(dec.value())
 	if err != nil {
 		return nil, err
+	}
+	if len(bytes) == 0 {
+		return nil, Errorf("Invalid empty big integer for tag %s", TagString(tag))
 	}
 	return bytesToBigInt(bytes), dec.Next()
 }
